@@ -412,7 +412,7 @@ def stmt_hook(fn, ind: int, s: ast.stmt):
         if (isinstance(f, ast.Attribute) and f.attr == "append" and isinstance(f.value, ast.Name)
                 and (f.value.id == out or f.value.id in a.fresh) and a.is_append_receiver(f.value)):
             nm = fn.name(f.value.id)
-            fn.emit(ind, f"{nm} := (← pyListAppend {nm} {fn.V(c.args[0])})")
+            fn.emit(ind, f"{nm} := (← pyListAppendA {nm} {fn.V(c.args[0])})")
             return True
         oi = _out_info(fn, c)
         if oi is not None:
